@@ -60,12 +60,18 @@ def respell_decimal(r: random.Random, tok: str) -> str:
     return ("-" if neg else "") + whole + "." + frac
 
 
-def respell_string(r: random.Random, tok: str) -> str:
+def respell_string(r: random.Random, tok: str, allow_multi: bool = True) -> str:
     if tok.startswith("'''") or tok.startswith('"""'):
         return tok
     v = lang.spec_single_line(tok)
     if "\\" in v:
         return tok
+    if allow_multi and r.random() < 0.3:
+        # the multi-line form, when it denotes the same string by the specification's dedent rules
+        q3 = r.choice(["'''", '"""'])
+        cand = q3 + v + q3
+        if q3 not in v and not v.endswith(q3[0]) and "\r" not in v and lang.spec_multi_line(cand) == v:
+            return cand
     q = r.choice(["'", '"'])
     return q + v.replace(q, "\\" + q).replace("\n", "\\n") + q
 
@@ -81,7 +87,8 @@ def respell(tokens: list[tuple[str, str]], r: random.Random) -> list[tuple[str, 
         elif ty == "DECIMAL" and r.random() < 0.6:
             out.append((ty, respell_decimal(r, tx)))
         elif ty == "STRING_LITERAL" and r.random() < 0.6 and not (i > 0 and tokens[i - 1][0] == "IMPORT"):
-            out.append((ty, respell_string(r, tx)))
+            # (the name of a position mark is a STRING_LITERAL in the grammar: no multi-line form there)
+            out.append((ty, respell_string(r, tx, allow_multi=not (i > 0 and tokens[i - 1][0] == "OPEN_SHARP"))))
         elif ty == "AT" and i + 2 < n and tokens[i + 2][0] != "CLOSE_PAREN" and r.random() < 0.5 \
                 and (i == 0 or tokens[i - 1][0] not in ("JUMP", "CALL")):
             out.append(("PARAGRAPH", "§"))
